@@ -20,14 +20,18 @@ func (fl *FunctionLiteral) String() string {
 
 	params := []string{}
 	for _, p := range fl.Parameters {
-		params = append(params, p.String())
+		if p != nil {
+			params = append(params, p.String())
+		}
 	}
 
 	out.WriteString(fl.TokenLiteral())
 	out.WriteString("(")
 	out.WriteString(strings.Join(params, ", "))
 	out.WriteString(") ")
-	out.WriteString(fl.Block.String())
+	if fl.Block != nil {
+		out.WriteString(fl.Block.String())
+	}
 
 	return out.String()
 }
